@@ -22,10 +22,12 @@ var progress atomic.Int64
 
 func TestMain(m *testing.M) {
 	run = vk.Start("C04", "exploration")
-	run.Rule("frame sequences over {PADI,PADR,PADT, LCP cfg-req/ack/nak/term-req/echo, PAP good/bad/error, CHAP response, IPCP cfg-req (0.0.0.0 / client-chosen / with DNS / empty) and cfg-ack, IP, idle tick} x source station {A,B owners, F,G others} x session id {own, another live session's, dead} x Ethernet destination {server, broadcast, another station}, injected as Ethernet frames into the real pppoe.Server.receiveLoop on an in-memory raw socket in virtual time, against RADIUS {none, scripted accept/reject/challenge by credentials, unreachable, silent (timeout, real time)}: breadth-first from the post-PADS table (two live sessions, one dead id) with fingerprint pruning to the depth bound, plus seeded random walks of 10-60 frames with aimed handshake fragments; plus packet sequences against the stand-alone pppoe.Authenticator. non-trivial = distinct sequence whose judged part delivered a PPP session-stage frame or PADT carrying the id of a live session (the lookup and the gated handlers were reached) and on which both clauses were evaluated")
+	run.Rule("frame sequences over {PADI,PADR,PADT, LCP cfg-req/ack/nak/term-req/echo, PAP good/bad/error, CHAP response, IPCP cfg-req (0.0.0.0 / client-chosen / with DNS / empty) and cfg-ack, IP, idle tick} x source station {A,B owners, F,G others} x session id {own, another live session's, dead} x Ethernet destination {server, broadcast, another station}, injected as Ethernet frames into the real pppoe.Server.receiveLoop on an in-memory raw socket in virtual time, against RADIUS {none, scripted accept/reject/challenge by credentials, unreachable, silent (timeout, real time)}: breadth-first from the post-PADS table (two live sessions, one dead id) with fingerprint pruning to the depth bound, plus seeded random walks of 10-60 frames with aimed handshake fragments; plus packet sequences against the stand-alone pppoe.Authenticator. non-trivial = distinct sequence whose judged part delivered a PPP session-stage frame or PADT carrying the id of a live session (the lookup and the gated handlers were reached) and on which both clauses were evaluated. Session-id counter: the same table reached after 65534 sessions (breadth-first spec and random walks whose 16-bit id counter is placed at 65531..0 after the prelude); scenarios with live sessions of A/B at ids out of {1,2,65535} (grid: every non-empty subset x 8 phase assignments over {LCP, authentication, IPCP, established}; random: 1-4 sessions at ids 65528..65535/1..6) followed by 1-12 PADRs of other stations with the counter placed at 65533..2 (grid) / 65528..6 (random), the stations then using the ids they were handed (PADT / own handshake / LCP terminate), owners probing with LCP echo and IPCP configure-request before and after; and real PADR/PADT churn of a third station taking the counter once round with sessions 1, 2 (and 65535) up. non-trivial there = distinct scenario in which a PADR of another station was answered and at least one owner session was compared across the foreign frames")
 	run.Assume("the harness-owned RADIUS server's log is the ground truth for 'accepted by RADIUS': each PAP/CHAP frame carries a unique user name and the server records its decision under it")
 	run.Assume("with no RADIUS client configured the code documents accept-all; the gate is then 'a PAP exchange from the owner MAC was delivered to the live session' (DESIGN 5b)")
 	run.Assume("an accepted exchange is never withdrawn by a later rejected one (the statement says 'only after ... was accepted'); establishment after a later rejection is counted, not judged")
+	run.Assume("placing the session manager's id counter with the hook VerifC09SetNextSessionID yields the state reached by creating that many sessions over the server's life time (the churn cases reach it without the hook)")
+	run.Assume("an owner's LCP Echo-Request / IPCP Configure-Request probe does not itself change its session (compared differentially before/after foreign frames; the idle timer is excluded)")
 	run.Assume("Session fields are read through the exported struct / methods while the server is quiescent (synctest.Wait, or the unbuffered-socket handshake outside bubbles)")
 	run.Floor("frames_delivered", 20000)
 	run.Floor("foreign_frame_session_pairs_judged", 10000)
@@ -33,6 +35,17 @@ func TestMain(m *testing.M) {
 	run.Floor("established_with_permission_observed", 50)
 	run.Floor("permissions_granted", 200)
 	run.Floor("authenticator_steps_judged", 500)
+	run.Floor("wrap_cases", 2000)
+	run.Floor("pads_judged_against_ownership_record", 20000)
+	run.Floor("padr_with_counter_at_reserved_id_0_and_id_1_live", 300)
+	run.Floor("padr_with_counter_on_a_live_sessions_id", 1000)
+	run.Floor("padr_answered_across_the_counter_wrap", 1000)
+	run.Floor("wrap_owner_sessions_compared_across_foreign_frames", 2000)
+	run.Floor("wrap_owner_probe_pairs_compared", 4000)
+	run.Floor("wrap_distinct_victim_id_x_state_x_counter_cells", 72)
+	run.Floor("churn_padrs_answered_after_the_counter_wrapped", 4)
+	run.Floor("churn_owner_sessions_compared_across_foreign_frames", 2)
+	run.Floor("cases_random_walk_near_wrap", 500)
 
 	var err error
 	if srvScripted, err = newRadSrv(false); err != nil {
@@ -159,6 +172,9 @@ func execSeq(t *testing.T, sp *spec, seq []sym, judgePrelude bool, judgeFrom int
 		}
 		full := append(append([]sym(nil), sp.Prelude...), seq...)
 		for i, s := range full {
+			if sp.SetCounter && i == len(sp.Prelude) {
+				c.placeCounter(sp.Counter)
+			}
 			judged := i >= jf
 			if live := c.step(s, judged); live && judged && i >= len(sp.Prelude) && (s.K.isSession() || s.K == kPADT) && s.Dst != 2 {
 				res.nontriv = true
@@ -166,6 +182,9 @@ func execSeq(t *testing.T, sp *spec, seq []sym, judgePrelude bool, judgeFrom int
 			if c.incon != "" {
 				break
 			}
+		}
+		if sp.SetCounter && len(full) == len(sp.Prelude) && c.incon == "" {
+			c.placeCounter(sp.Counter)
 		}
 		if c.incon != "" {
 			res.err = c.incon
@@ -235,6 +254,8 @@ func bfsSpecs() []*spec {
 		{Name: "bfs/radius=none/pap", Radius: "none", AuthType: "pap", Pool: "10.0.0.0/29", DNS: true, Prelude: postPADS, Bubble: true},
 		{Name: "bfs/radius=scripted/pap", Radius: "scripted", AuthType: "pap", Pool: "10.0.0.0/29", DNS: true, Prelude: postPADS, Bubble: true},
 		{Name: "bfs/radius=scripted/chap/pool-of-one", Radius: "scripted", AuthType: "chap", Pool: "10.0.0.0/30", DNS: false, Prelude: postPADS, Bubble: true},
+		// same table, reached after 65534 sessions: the PADR letters are answered with the last id and then run into 0, 1, 2
+		{Name: "bfs/radius=none/pap/id-counter-at-65535", Radius: "none", AuthType: "pap", Pool: "10.0.0.0/29", DNS: true, Prelude: postPADS, Bubble: true, SetCounter: true, Counter: 65535},
 	}
 	if closedPort != 0 {
 		out = append(out, &spec{Name: "bfs/radius=unreachable/pap", Radius: "unreachable", AuthType: "pap", Pool: "10.0.0.0/29", DNS: true, Prelude: postPADS, Bubble: true})
@@ -348,24 +369,58 @@ func TestExhaustive(t *testing.T) {
 type walkGen struct {
 	rng     *rand.Rand
 	created []int // owner station of session id i+1 (aiming only; the oracle never reads it)
+	// walks whose id counter does not start at 1: predicted id of created[i] and
+	// predicted counter (aiming only)
+	track bool
+	ids   []uint16
+	next  uint16
+}
+
+// idAt is the (predicted) session id of the i-th session created.
+func (g *walkGen) idAt(i int) uint16 {
+	if g.track {
+		return g.ids[i]
+	}
+	return uint16(i + 1)
 }
 
 func (g *walkGen) anyID() uint16 {
 	switch x := g.rng.IntN(10); {
 	case x < 7 && len(g.created) > 0:
-		return uint16(1 + g.rng.IntN(len(g.created)))
+		return g.idAt(g.rng.IntN(len(g.created)))
 	case x < 8:
 		return uint16(1 + g.rng.IntN(8))
 	case x < 9:
+		if g.track {
+			return g.next
+		}
 		return uint16(len(g.created) + 1)
 	default:
 		return []uint16{0, 9, 255, 65535}[g.rng.IntN(4)]
 	}
 }
 
+func (g *walkGen) noteCreated(src int) {
+	g.created = append(g.created, src)
+	if !g.track {
+		return
+	}
+	for taken := true; taken; {
+		taken = g.next == 0
+		for _, id := range g.ids {
+			taken = taken || id == g.next
+		}
+		if taken {
+			g.next++
+		}
+	}
+	g.ids = append(g.ids, g.next)
+	g.next++
+}
+
 func (g *walkGen) emit(out *[]sym, s sym) {
 	if s.K == kPADR && s.Dst != 2 {
-		g.created = append(g.created, s.Src)
+		g.noteCreated(s.Src)
 	}
 	*out = append(*out, s)
 }
@@ -385,8 +440,9 @@ func (g *walkGen) gen(n int, scripted bool) []sym {
 			g.emit(&out, sym{K: kPADR, Src: g.rng.IntN(4), Dst: dst})
 		case x < 30:
 			// aimed fragment of the intended handshake for one session, from its owner or from somebody else
-			id := 1 + g.rng.IntN(len(g.created))
-			src := g.created[id-1]
+			idx := g.rng.IntN(len(g.created))
+			id := g.idAt(idx)
+			src := g.created[idx]
 			if g.rng.IntN(4) == 0 {
 				src = g.rng.IntN(4)
 			}
@@ -396,7 +452,7 @@ func (g *walkGen) gen(n int, scripted bool) []sym {
 			}
 			from := g.rng.IntN(len(frag))
 			for _, k := range frag[from:] {
-				s := sym{K: k, Src: src, ID: uint16(id)}
+				s := sym{K: k, Src: src, ID: id}
 				if g.rng.IntN(8) == 0 {
 					s.Src = g.rng.IntN(4) // an intruder in the middle of the handshake
 				}
@@ -451,6 +507,35 @@ func TestRandomWalks(t *testing.T) {
 				run.Sample(map[string]any{"kind": "random-walk", "spec": sp.Name, "trace": r.trace})
 			}
 			sampleMu.Unlock()
+		}
+	})
+}
+
+// TestRandomWalksNearWrap: the same walks on a server whose id counter stands
+// just below its 16-bit wrap once the prelude (sessions 1 and 2 live) has been
+// played, so that the PADRs of the walk are answered with the last ids, run
+// into the reserved id 0 and into the ids of the sessions that are still up.
+func TestRandomWalksNearWrap(t *testing.T) {
+	n := run.Pick(800, 20000)
+	parMap(t, n, func(t *testing.T, i int, ob *obsBuf) {
+		rng := run.SubRand("walkwrap", i)
+		sp := walkSpec(rng, i)
+		sp.SetCounter = true
+		sp.Counter = []uint16{65531, 65532, 65533, 65534, 65535, 65535, 0, 0}[rng.IntN(8)]
+		sp.Name = fmt.Sprintf("near-wrap-%s/counter=%d", sp.Name, sp.Counter)
+		g := &walkGen{rng: rng, track: true, next: 1}
+		for _, s := range sp.Prelude {
+			if s.K == kPADR {
+				g.noteCreated(s.Src)
+			}
+		}
+		g.next = sp.Counter
+		seq := g.gen(10+rng.IntN(51), sp.Radius == "scripted")
+		r := execSeq(t, sp, seq, true, 0, false, ob)
+		record(sp, seq, r, "random_walk_near_wrap")
+		ob.count("walk_frames", len(seq))
+		if i == 5 && r.err == "" {
+			run.Sample(map[string]any{"kind": "random-walk near the id-counter wrap", "spec": sp.Name, "trace": r.trace})
 		}
 	})
 }
